@@ -494,7 +494,174 @@ fn random_answers(rng: &mut Rng, ts: u8, peers: &[u8], n: usize) -> Vec<String> 
         .collect()
 }
 
+impl<'a> Gen<'a> {
+    /// Poll every `step` us for `dur` us without any reaction of the environment; returns what was sent.
+    fn idle(&mut self, dur: i64, step: i64) -> Vec<Vec<u8>> {
+        let mut out = vec![];
+        let end = self.now + dur;
+        while self.now < end && !self.st.dead {
+            self.now += step.max(1);
+            if let Some(tx) = self.poll() {
+                self.now += self.bits(11 * tx.len() as u64);
+                out.push(tx);
+            }
+        }
+        out
+    }
+    /// Deliver bytes, then poll once after their transmission time and once more after the sync pause.
+    fn deliver(&mut self, bytes: &[u8]) -> Option<Vec<u8>> {
+        self.rx(bytes);
+        self.now += self.bits(11 * bytes.len() as u64) + 1;
+        let a = self.poll();
+        self.now += self.bits(34);
+        let b = self.poll();
+        let tx = a.or(b);
+        if let Some(t) = &tx {
+            self.now += self.bits(11 * t.len() as u64) + 1;
+        }
+        tx
+    }
+}
+
+/// Bring the station into the ring next to the peers `ring` (ascending): it listens to rotations until its
+/// LAS is valid, is polled by its predecessor, answers "ready" and ends up in ActiveIdle.
+fn prep_in_ring(g: &mut Gen, rng: &mut Rng, ring: &[u8]) {
+    let ts = g.ts;
+    for _ in 0..3 {
+        for k in 0..ring.len() {
+            let sa = ring[k];
+            let da = ring[(k + 1) % ring.len()];
+            g.rx(&token(da, sa));
+            g.now += g.bits(33 + 3 * 11 + rng.below(40));
+            g.poll();
+        }
+    }
+    let ps = g.st.fdl.inspect_token_ring().previous_station();
+    if ps != ts {
+        g.deliver(&status_req(ts, ps));
+    }
+}
+
+/// Targeted short cases: from a station that is a ring member next to several peers, a short random
+/// sequence over an alphabet of environment actions (tokens from PS / from two different strangers /
+/// between peers / with the own source address, silences of slot, 3 slots and time-out length, status
+/// requests, SC, garbage, natural peer behaviour).
+fn gen_targeted(ops: &mut Vec<String>, seed: u64, ncases: u64) {
+    for case in 0..ncases {
+        let mut rng = Rng::new(seed, "station-targeted", case);
+        let rate = *rng.pick(&[19200u64, 500_000, 1_500_000, 93_750]);
+        let slot: u64 = match rate {
+            500_000 => 200,
+            1_500_000 => 300,
+            _ => 100,
+        } + rng.below(2) * 40;
+        let hsa = *rng.pick(&[126u8, 32, 16]);
+        let ts = 1 + rng.below(hsa as u64 - 2) as u8;
+        let napps = rng.below(3) as usize;
+        // 2..4 peers, ascending, distinct from TS
+        let mut ring: Vec<u8> = vec![];
+        while ring.len() < 2 + rng.below(3) as usize {
+            let p = match rng.below(4) {
+                0 => ts + 1,
+                1 => ts - 1,
+                _ => rng.below(hsa as u64) as u8,
+            };
+            if p != ts && p < hsa && !ring.contains(&p) {
+                ring.push(p);
+            }
+        }
+        ring.sort();
+        let line = format!("st.new {ts} {rate} {slot} {} {} {hsa} {} {napps}", *rng.pick(&[256u32, 5000, 50_000]), *rng.pick(&[1u8, 2, 10]), 1 + rng.below(2));
+        ops.push(line.clone());
+        let w: Vec<&str> = line.split(' ').collect();
+        let st = Station::new(&w[1..]).unwrap();
+        let mut g = Gen { ops, st, now: 100, rate, slot_bits: slot, ts, hsa };
+        g.op("st.online".into());
+        for i in 0..napps {
+            let a = random_answers(&mut rng, ts, &ring, 6);
+            g.op(format!("st.script {i} {}", a.join(" ")));
+        }
+        prep_in_ring(&mut g, &mut rng, &ring);
+        let slot_t = g.bits(slot);
+        let tto = g.bits(slot * (6 + 2 * ts as u64));
+        let strangers: Vec<u8> = {
+            let ps = g.st.fdl.inspect_token_ring().previous_station();
+            let mut v: Vec<u8> = ring.iter().copied().filter(|a| *a != ps).collect();
+            v.push((ts as u16 + 50) as u8 % hsa.max(2));
+            v.push(hsa - 1);
+            v.retain(|a| *a != ts);
+            v
+        };
+        let nact = 3 + rng.below(7);
+        for _ in 0..nact {
+            if g.st.dead {
+                break;
+            }
+            let ps = g.st.fdl.inspect_token_ring().previous_station();
+            let ns = g.st.fdl.inspect_token_ring().next_station();
+            match rng.below(16) {
+                0 | 1 => {
+                    g.deliver(&token(ts, ps));
+                }
+                2 => {
+                    let a = strangers[0];
+                    g.deliver(&token(ts, a));
+                }
+                3 => {
+                    let b = strangers[strangers.len() - 1 - rng.below(2.min(strangers.len() as u64 - 1)) as usize];
+                    g.deliver(&token(ts, b));
+                }
+                4 => {
+                    let a = *rng.pick(&ring);
+                    let b = *rng.pick(&ring);
+                    g.deliver(&token(b, a));
+                }
+                5 => {
+                    g.idle(slot_t + slot_t / 2, (slot_t / 3).max(1));
+                }
+                6 | 7 => {
+                    g.idle(4 * slot_t, (slot_t / 3).max(1));
+                }
+                8 => {
+                    g.idle(tto + 2 * slot_t, slot_t.max(1));
+                }
+                9 => {
+                    g.deliver(&status_req(ts, ps));
+                }
+                10 => {
+                    let a = *rng.pick(&strangers);
+                    g.deliver(&status_req(ts, a));
+                }
+                11 => {
+                    g.deliver(&[0xE5]);
+                }
+                12 => {
+                    let b = rng.bytes_below(5);
+                    g.deliver(&b);
+                }
+                13 => {
+                    g.deliver(&token(*rng.pick(&ring), ts));
+                }
+                14 => {
+                    // natural behaviour of the peers for a few polls
+                    for _ in 0..(3 + rng.below(8)) {
+                        g.now += (slot_t / 4).max(1);
+                        if let Some(tx) = g.poll() {
+                            react(&mut g, &mut rng, &ring, &tx, false);
+                        }
+                    }
+                }
+                _ => {
+                    // the successor answers the token by passing it on (keeps the ring alive)
+                    g.deliver(&token(*rng.pick(&ring), ns));
+                }
+            }
+        }
+    }
+}
+
 pub fn gen(ops: &mut Vec<String>, seed: u64, thorough: bool) {
+    gen_targeted(ops, seed, if thorough { 20_000 } else { 700 });
     let ncases = if thorough { 3000 } else { 160 };
     let rates = [19200u64, 500_000, 1_500_000, 12_000_000, 93_750];
     for case in 0..ncases {
